@@ -219,6 +219,62 @@ def _twin_rename(d: str) -> int:
     return n
 
 
+def _twin_rename_all(d: str) -> int:
+    """Rename EVERY local variable of every function (not parameters, not names bound by import / except / global / nonlocal, not names
+    shadowed by a nested function's parameter) to <name>_rn.  Behaviour-preserving; exposes any rule that depends on a local's name."""
+    import builtins
+    n = 0
+    for p in _py_files(d):
+        tree = ast.parse(open(p, encoding="utf-8").read())
+        module_names = set()
+        for node in tree.body:
+            for x in ast.walk(node) if not isinstance(node, (ast.FunctionDef, ast.AsyncFunctionDef, ast.ClassDef)) else []:
+                if isinstance(x, ast.Name):
+                    module_names.add(x.id)
+            if isinstance(node, (ast.FunctionDef, ast.AsyncFunctionDef, ast.ClassDef)):
+                module_names.add(node.name)
+            if isinstance(node, (ast.Import, ast.ImportFrom)):
+                for a in node.names:
+                    module_names.add((a.asname or a.name).split(".")[0])
+
+        def top_functions(node):
+            for c in ast.iter_child_nodes(node):
+                if isinstance(c, (ast.FunctionDef, ast.AsyncFunctionDef)):
+                    yield c
+                elif isinstance(c, ast.ClassDef):
+                    yield from top_functions(c)
+
+        for fn in top_functions(tree):
+            params, stored, blocked, loaded_before = set(), set(), set(), set()
+            for x in ast.walk(fn):
+                if isinstance(x, (ast.FunctionDef, ast.AsyncFunctionDef, ast.Lambda)):
+                    a = x.args
+                    for arg in a.posonlyargs + a.args + a.kwonlyargs + ([a.vararg] if a.vararg else []) + ([a.kwarg] if a.kwarg else []):
+                        params.add(arg.arg)
+                    if isinstance(x, (ast.FunctionDef, ast.AsyncFunctionDef)) and x is not fn:
+                        blocked.add(x.name)
+                elif isinstance(x, ast.Name) and isinstance(x.ctx, (ast.Store, ast.Del)):
+                    stored.add(x.id)
+                elif isinstance(x, (ast.Global, ast.Nonlocal)):
+                    blocked.update(x.names)
+                elif isinstance(x, ast.ExceptHandler) and x.name:
+                    blocked.add(x.name)
+                elif isinstance(x, (ast.Import, ast.ImportFrom)):
+                    for a in x.names:
+                        blocked.add((a.asname or a.name).split(".")[0])
+                elif isinstance(x, ast.ClassDef):
+                    blocked.add(x.name)
+            locals_ = {v for v in stored if v not in params and v not in blocked and v != "_" and not hasattr(builtins, v) and v not in module_names}
+            if not locals_:
+                continue
+            for x in ast.walk(fn):
+                if isinstance(x, ast.Name) and x.id in locals_:
+                    x.id = x.id + "_rn"
+                    n += 1
+        open(p, "w", encoding="utf-8").write(ast.unparse(tree) + "\n")
+    return n
+
+
 def _twin_raise(d: str) -> int:
     """`assert False, msg` -> `raise AssertionError(msg)` ; `if a != b:` -> `if not a == b:` (simple one-line forms)."""
     n = 0
@@ -292,7 +348,8 @@ def run(pid: str, repo: str, seed: int = 0) -> dict:
             shutil.rmtree(d, ignore_errors=True)
         if muts and out["mutants_applied"] < max(1, len(muts) // 2):
             out["failures"].append(f"only {out['mutants_applied']} of {len(muts)} must-fire mutants still apply to the tree")
-        for name, fn in (("reformat (ast.unparse of every module)", _twin_reformat), ("rename locals", _twin_rename), ("assert->raise, != -> not ==", _twin_raise)):
+        for name, fn in (("reformat (ast.unparse of every module)", _twin_reformat), ("rename locals", _twin_rename), ("assert->raise, != -> not ==", _twin_raise),
+                         ("rename every local variable", _twin_rename_all)):
             d = _copy_repo(repo)
             scratch.append(d)
             try:
@@ -300,8 +357,15 @@ def run(pid: str, repo: str, seed: int = 0) -> dict:
                 got, res = _violations(pid, d)
                 out["twins_run"] += 1
                 undec_ok = True
-                if got == base:
+                short = []
+                for rule, floor in res.floors.items():
+                    decided = sum(1 for i in res.instances if i.rule == rule and i.verdict in (report.OK, report.VIOLATION))
+                    if decided < floor:
+                        short.append(f"{rule}: {decided} < {floor}")
+                if got == base and not short:
                     out["twins_silent"] += 1
+                elif short:
+                    out["failures"].append(f"must-stay-silent twin `{name}` makes instances undecided (floors not met: {short[:3]})")
                 else:
                     out["failures"].append(f"must-stay-silent twin `{name}` changed the findings: +{sorted(got - base)[:3]} -{sorted(base - got)[:3]}")
             except Exception as e:
